@@ -65,8 +65,8 @@ def cases(tier, seed):
     nz = 60 if tier == "quick" else 1500
     for i in range(nz):
         c = _gen(rng, "thorough", i)
-        L = [0, 1, 2, 3, 6][i % 5]
-        c.update({"id": "zero-%d" % i, "kind": "zero_ab", "sa": 0.0 if L == 0 else [0.0] * L, "sa_int": bool(i % 2), "opts": scat.ML_OPTS[i % 4]})
+        L = [0, 1, 2, 3, 6, -1][i % 6]         # -1: a list of length zero
+        c.update({"id": "zero-%d" % i, "kind": "zero_ab", "sa": 0.0 if L == 0 else [0.0] * max(L, 0), "sa_int": bool(i % 2), "opts": scat.ML_OPTS[i % 4]})
         out.append(c)
     for i in range(nz):
         c = _gen(rng, "thorough", i)
@@ -197,7 +197,12 @@ def _run_zero_ab(case):
     if not isinstance(sa, list):
         c = _field(det, s, nmed, wl, pol, AberratedMieLens(lens_angle=case["la"], calculator_accuracy_kwargs=kw))   # default aberration is 0.0
         flags["default_aberration_is_zero"] = bool(np.array_equal(c, b))
-    return {"resid": {"zero_aberration": fnum(float(np.abs(a - b).max()) / sc)}, "flags": flags, "fmax": fnum(sc)}
+    # the lens angle is a number whatever its type: single precision input means the double of the same value
+    la32 = np.float32(case["la"])
+    f32 = _field(det, s, nmed, wl, pol, MieLens(la32, calculator_accuracy_kwargs=kw))
+    f64 = _field(det, s, nmed, wl, pol, MieLens(float(la32), calculator_accuracy_kwargs=kw))
+    resid32 = fnum(float(np.abs(f32 - f64).max()) / max(float(np.abs(f64).max()), 1e-300))
+    return {"resid": {"zero_aberration": fnum(float(np.abs(a - b).max()) / sc), "float32_lens_angle": resid32}, "flags": flags, "fmax": fnum(sc)}
 
 
 def _run_interp(case):
@@ -277,7 +282,7 @@ def judge(case, obs):
             out.append({"mech": "cutoff.far_cross", "detail": "with raised quadrature orders both theories are converged beyond the default cut-off (%.1e, %.1e) but differ by %.3e of the field there; %s" % (r["far_mielens_refine"], r["far_lens_refine"], r["far_cross"], desc)})
         r = {}
     for k, v in r.items():
-        tol = {"zero_aberration": 1e-13, "interp_check": 1e-8, "interp_on": 1e-8, "interp_on_custom": 1e-8,
+        tol = {"zero_aberration": 1e-13, "float32_lens_angle": 1e-12, "interp_check": 1e-8, "interp_on": 1e-8, "interp_on_custom": 1e-8,
                "reused_lens_object": 0.0, "reused_mielens_object": 0.0, "small_theta_lt_phi": SMALL_TOL[case.get("inner", "Mie")], "small_theta_gt_phi": SMALL_TOL[case.get("inner", "Mie")]}[k]
         if not v <= tol:
             out.append({"mech": "%s.%s" % (case["kind"], k), "detail": "%s=%.3e > %.0e; %s %s" % (k, v, tol, desc, {x: case[x] for x in case if x in ("sa", "opts", "window", "degree", "npts_det", "orders", "inner")})})
